@@ -122,6 +122,9 @@ class St:
         self.targets = set()    # classes used as the second argument of a subclass test
         self.reads = set()      # ambient / global reads (for determinism frames)
         self.tags = {}          # term id -> constructor name learnt from assumed recognisers
+        self.use_quantified = False
+        self.dict_instantiators = []   # callables (dict id term, key term) -> Bool
+        self.instantiators = []   # callables r:Int-term -> Bool : quantifier-free instances of state invariants
         self._tagkeep = []
         self.events = []        # free-form ghost event log (host list of tuples)
 
@@ -199,14 +202,26 @@ class St:
 
     def feasible(self, f):
         """pruning only: quantified hypotheses are dropped (more paths explored, never fewer)"""
-        pc = [p for p in self.pc + self.class_axioms() if not has_quantifier(p)]
-        return check_sat(pc, f) != "unsat"
+        full = self.pc + self.class_axioms()
+        pc = [p for p in full if not has_quantifier(p)]
+        if check_sat(pc, f) == "unsat":
+            return False
+        if self.use_quantified and len(pc) != len(full):
+            # second chance with the quantified hypotheses (E-matching finds contradictions quickly; a slow or
+            # inconclusive answer just means "feasible")
+            return check_sat(full + list(self.h.axioms), f, 400) != "unsat"
+        return True
 
     def valid(self, f):
         """dispatch-time validity: decided on the quantifier-free part of the pc (+ heap/class axioms).
         Fewer hypotheses => 'valid' answers stay sound; a missed validity only costs precision."""
-        pc = [p for p in self.pc + self.class_axioms() if not has_quantifier(p)]
-        return check_sat(pc, z3.Not(f)) == "unsat"
+        full = self.pc + self.class_axioms()
+        pc = [p for p in full if not has_quantifier(p)]
+        if check_sat(pc, z3.Not(f)) == "unsat":
+            return True
+        if self.use_quantified and len(pc) != len(full):
+            return check_sat(full + list(self.h.axioms), z3.Not(f), 400) == "unsat"
+        return False
 
     def valid_full(self, f, timeout_ms=1000):
         return check_sat(self.full_pc(), z3.Not(f), timeout_ms) == "unsat"
@@ -323,8 +338,23 @@ class St:
                 return z3.BoolVal(False)
         return t
 
+    def dict_read(self, d, key):
+        """quantifier-free instances of table invariants for a read of d[key]"""
+        if self.dict_instantiators:
+            mk = ("dinst", d.get_id(), key.get_id())
+            if mk not in self.gmemo:
+                self.gmemo[mk] = (d, key)
+                for f in self.dict_instantiators:
+                    self.assume(f(V.id(d), key))
+
     def wf_read(self, v):
         """Heap well-formedness for a value read out of the heap: a reference it carries was
         allocated before (input objects have ids <= 0, fresh ones 1..nalloc)."""
         self.assume(z3.Implies(V.is_ref(v), V.id(v) <= self.nalloc))
+        if self.instantiators:
+            key = ("inst", v.get_id())
+            if key not in self.gmemo:
+                self.gmemo[key] = v
+                for f in self.instantiators:
+                    self.assume(z3.Implies(V.is_ref(v), f(V.id(v))))
         return v
